@@ -40,7 +40,13 @@ def rand_double(rng):
 
 def rand_str(rng):
     n = rng.choice((0, 1, 3, 8, 20, 80))
-    return "".join(rng.choice("abcXYZ019_-+. /") for _ in range(n))
+    s = "".join(rng.choice("abcXYZ019_-+. /") for _ in range(n))
+    if rng.random() < 0.25:
+        # file names in the wild spell out parameters: a string VALUE may contain the name of any header key (and the
+        # framing words); a codec must find fields by structure, never by searching for a key's bytes
+        words = rng.sample(sorted(KEYS) + ["HEADER_END", "HEADER_START"], rng.randint(1, 3))
+        s = s[:10] + "_".join(f"{w}{rng.randrange(100)}" for w in words) + ".raw"
+    return s
 
 
 class C05(Prop):
@@ -114,7 +120,21 @@ class C05(Prop):
             kvs.append(["source_name", "str", "PSR_J0000"])
         r = rng.random()
         present = [k for k, _, _ in kvs]
-        if r < 0.5:
+        if r < 0.15 and len(present) > 2:
+            # a string value that names a later key, then an edit of that key
+            strs = [i for i, (k, f, _) in enumerate(kvs) if f == "str"]
+            if not strs:
+                kvs.insert(0, ["rawdatafile", "str", "x"])
+                strs = [0]
+                present = [k for k, _, _ in kvs]
+            i = rng.choice(strs)
+            later = [k for k, f, _ in kvs[i + 1:] if f != "str"]
+            if later:
+                key = rng.choice(later)
+                kvs[i][2] = f"obs_{key}{rng.randrange(100)}_beam2.raw"
+            else:
+                key = rng.choice(present)
+        elif r < 0.5:
             key = rng.choice(present)
         elif r < 0.7:
             key = rng.choice([k for k in KEYS if k not in present] or present)
